@@ -930,6 +930,9 @@ def run(ctx):
     ctx.attempt(r311, ctx)
     ctx.rule("R-3.15", "a job is drawn from a P matrix whose rows belong to the paths they are indexed by: the row sort of inf_retis is undone through the index array that sorted, kernel results land in their own windows (shared with C02 R-2.4 / R-2.5) - else a path with zero weight in an ensemble can be handed out for it", floor=5)
     from . import c02 as _c02
+    ctx.rule("R-3.17", "a re-issued job holds the ensembles it held before: the in-flight record pairs ensembles and paths position by position (shared with C08 R-8.13)", floor=2)
+    from . import c08 as _c08b
+    ctx.attempt(_c08b.r813, ctx, "R-3.17")
     ctx.rule("R-3.16", "a job is drawn from the P matrix of the current slot order: every function that permutes slots / changes busy flags invalidates the memoised matrix before it is read again (shared with C02 R-2.1)", floor=20)
     ctx.attempt(_c02.r21, _RP0(ctx, "R-3.16", " (swap() does not move the rows of the cached matrix: the next pick can hand a job a path with zero weight in its ensemble)"))
     ctx.attempt(_c02.r24_25, _RP0(ctx, "R-3.15", " (pairs with zero weight get a non-zero pick probability: pick() starts a job on a path that is not valid in its ensemble)"))
@@ -944,6 +947,7 @@ def run(ctx):
 
 
 VARIANTS = [
+    B("c03-record-in-pick-order", REPEX, "        pat_nums = [str(i.path_number) for i in inp_trajs]\n", "        pat_nums = [str(traj.path_number)]\n        if len(inp_trajs) > 1:\n            pat_nums.append(str(other_traj.path_number))\n", "R-3.17", control=True, why="seeded C03_l (= C08_j)"),
     B("c03-resort-invalidates-only-when-list-nonempty", REPEX, "            ]\n        self._last_prob = None\n        self.prob\n\n    def lock(self, ens):", "            ]\n        if True in needstomove:\n            self._last_prob = None\n        self.prob\n\n    def lock(self, ens):", "R-3.16", control=True, why="seeded C03_k"),
     B("c03-row-sort-reapplied", REPEX, "        out[sort_idx] = out.copy()", "        out = out[sort_idx]", "R-3.15", control=True, why="seeded C03_j"),
     K("c03-keep-acquire-check-through-local", REPEX, "        assert self._locks[ens] == 0\n", "        is_free = self._locks[ens] == 0\n        assert is_free\n"),
